@@ -419,6 +419,9 @@ func (p *CodeBuilder) Slice(slice3 bool, src ...ast.Node) *CodeBuilder { // a[i:
 				code, pos, end := p.loadExpr(srcExpr)
 				p.panicCodeErrorf(pos, end, "invalid operation %s (3-index slice of string)", code)
 			}
+			if t.Kind() == types.UntypedString { // slicing an untyped string constant yields a non-constant string
+				typ = types.Typ[types.String]
+			}
 		} else {
 			code, pos, end := p.loadExpr(x.Src)
 			p.panicCodeErrorf(pos, end, "cannot slice %s (type %v)", code, typ)
